@@ -15,6 +15,10 @@ REVERTS = {
 }
 
 ASSESS = {
+ "C03-r7-m1": "DoublePriorityQueue::change_priority rewritten as remove + push. Without a fault every observable is identical; the targeted element is lost only if Ord::cmp panics during the re-heapify inside remove and the panic is caught (the pair is dropped while unwinding, before push runs). After such an event length and contents are unspecified (C10) and there is no memory-safety consequence, so C10 is silent too. Outside C03 as quantified; not reported, not claimed.",
+ "C13-r7-m1": "PriorityQueue's sorted iterator sifts the root down with a hole and no drop guard. Identical without faults; after a caught panic in Ord::cmp inside next() one heap slot is duplicated. C13 is quantified over fault-free use and is silent; the continued use of the iterator writes out of bounds, which C10 reports through its Consume operation (sorted iteration resumed after the caught panic).",
+ "C13-r7-m2": "DoublePriorityQueue's sorted iterator keeps its own `remaining` counter and decrements it before popping: differs only when the first comparison of next_back panics and is caught (len() one too low, one element never yielded). No safety consequence (C10 silent), outside C13 as quantified (fault-free use). Not reported, not claimed.",
+ "C16-r7-m2": "clear() returns early when is_empty(). A no-op in every state reachable without a caught panic; it only differs on a queue whose map and tables were de-synchronised by a panic in a retain predicate followed by pops whose panics were caught too. No safety consequence (the stale elements are dropped with the queue). Outside C16 as quantified; not reported, not claimed.",
  "C09-r5-m1": "Two edits: PriorityQueue::IterMut walks the heap vector (identical multiset while heap and map agree) and bubble_up goes back to moving while comparing (revert of the D6 repair). Only after a caught panic in a comparison does the heap vector name one slot twice, and iter_mut then yields it twice. The second edit alone breaks C10, whose fault enumeration reports it (see evals/r5-cross.txt); C09 is quantified over fault-free histories. Not reported by C09, not claimed.",
  "C09-r5-m2": "Two edits: DoublePriorityQueue::IterMut takes its end from `len()` (the size counter) and push counts the element after the sift-up (partial revert of D6). Visible only after a caught panic in a comparison inside push; the second edit alone breaks C10, which reports it (evals/r5-cross.txt). Outside C09 as quantified (fault-free histories).",
  "C17-r5-m1": "Two edits: shrink_to_fit truncates heap/qp to `size`, and PriorityQueue::push counts the element after the sift-up (partial revert of D6). The truncation is a no-op on every state reachable without a caught panic; the second edit alone breaks C10, which reports it (evals/r5-cross.txt). Outside C17 as quantified (reachable states of fault-free histories; its failure paths are allocation failures).",
@@ -63,7 +67,7 @@ for d in sorted(os.listdir(ROOT)):
         origin = f"revert of fix commit {commit} in /repo"
     else:
         prop = d.split("-")[0]
-        rnd = "sixth" if "-r6-" in d else "fifth" if "-r5-" in d else "fourth" if "-r4-" in d else ("third" if "-r3-" in d else ("second" if "-r2-" in d else "first"))
+        rnd = "seventh" if "-r7-" in d else "sixth" if "-r6-" in d else "fifth" if "-r5-" in d else "fourth" if "-r4-" in d else ("third" if "-r3-" in d else ("second" if "-r2-" in d else "first"))
         origin = f"written by a fresh sub-agent ({rnd} round) that was given only the text of {prop} and a scratch worktree"
         notes = os.path.join(p, "notes.md")
         needs = open(notes).read().strip() if os.path.exists(notes) else ""
@@ -90,7 +94,7 @@ for d in sorted(os.listdir(ROOT)):
     rows.append((d, prop, sorted(caught), sorted(machinery), sorted(ran), own_final))
 
 with open(os.path.join(ROOT, "MATRIX.md"), "w") as f:
-    f.write("# Seeded changes x quick checks\n\n`X` = the check exited 1 with a VIOLATION line and a replay that reproduced twice, in at least one of the runs recorded under `<change>/evals/`; `.` = run and silent; blank = not run against this change (the third to sixth rounds were run against their own property, C03 and C04 only). Entries are a lower bound: the all-checks pass was made with the harness as it was when the change arrived, later strengthening only adds detections. Column `own` = reported by the check of the property it was written against, with the FINAL harness.\nGenerated by tools/make_seeded_meta.py.\n\n")
+    f.write("# Seeded changes x quick checks\n\n`X` = the check exited 1 with a VIOLATION line and a replay that reproduced twice, in at least one of the runs recorded under `<change>/evals/`; `.` = run and silent; blank = not run against this change (the third to seventh rounds were run against their own property, C03 and C04 only). Entries are a lower bound: the all-checks pass was made with the harness as it was when the change arrived, later strengthening only adds detections. Column `own` = reported by the check of the property it was written against, with the FINAL harness.\nGenerated by tools/make_seeded_meta.py.\n\n")
     f.write("| change | for | " + " | ".join(p[1:] for p in PROPS) + " | own |\n")
     f.write("|---|---|" + "---|" * len(PROPS) + "---|\n")
     own = 0
